@@ -19,7 +19,7 @@ RULE = ('seeded generator: circular / hexagon-like / segmented / off-centre / sp
 ASSUMPTIONS = ['modes linearly independent on the mask (condition number < 1e8), as the property requires']
 PLAN = {'quick': {'gen': 8}, 'thorough': {'gen': 16, 'tests': 1}}
 REQUIRED_BUCKETS = ['modes:contiguous', 'modes:noncontiguous', 'modes:unordered', 'modes:single-high', 'normalize:True',
-                    'normalize:False', 'coords:default', 'coords:supplied', 'mask:circular', 'mask:segmented', 'mask:offcentre']
+                    'normalize:False', 'coords:default', 'coords:supplied', 'mask:circular', 'mask:segmented', 'mask:offcentre', 'mask:weighted']
 REQUIRED_ANCHORS = ['anchor:zernike_fit', 'anchor:zernike_remove', 'anchor:zernike_compose', 'anchor:zernike_basis']
 REQUIRED_ORACLES = ['compose=own-basis', 'fit=coeffs', 'remove:residual-coeffs=0', 'remove=lstsq', 'remove:idempotent',
                     'remove:pure->0']
@@ -127,6 +127,10 @@ def workload(ctx, lentil):
         for c, j in zip(coeffs, modes):
             full[j - 1] += c
         maskf = mask.astype(float)
+        if rng.random() < 0.4:
+            # masks enter only through their support: antialiased / weighted masks (values other than 0 and 1) are legal
+            maskf = maskf * rng.uniform(0.2, 3.0, size=shape)
+            ctx.bucket('mask:weighted')
         try:
             opd_l = lentil.zernike_compose(maskf, full, normalize=normalize, **kw)
         except Exception as e:
